@@ -502,6 +502,30 @@ fn gen_instance(rng: &mut Rng, max_live: usize, small_types: bool, dup: bool, co
     Instance { a, b, keys, masked, overlap, live: (la, lb), nulls: (na, nb), masked_keys: (ma, mb), null_first_b, dup }
 }
 
+/// does table `x` (first table if `x_is_a`) hold a live row with a masked key entry whose stale key
+/// data equals, in every key column, the key of a fully live row of the other table?  (such a row
+/// must match nothing)
+fn has_masked_key_collision(inst: &Instance, x_is_a: bool) -> bool {
+    if !inst.masked { return false; }
+    let (x, y) = if x_is_a { (&inst.a, &inst.b) } else { (&inst.b, &inst.a) };
+    let hx: Vec<&String> = inst.keys.iter().map(|k| if x_is_a { &k.0 } else { &k.1 }).collect();
+    let hy: Vec<&String> = inst.keys.iter().map(|k| if x_is_a { &k.1 } else { &k.0 }).collect();
+    let col = |t: &Table, h: &String| t.iter().position(|c| &c.name == h);
+    let null = |t: &Table| t.iter().position(|c| c.name == NULL_HEADER);
+    let (nx, ny) = match (null(x), null(y)) { (Some(a), Some(b)) => (a, b), _ => return false };
+    let cx: Vec<usize> = match hx.iter().map(|h| col(x, h)).collect::<Option<Vec<_>>>() { Some(v) => v, None => return false };
+    let cy: Vec<usize> = match hy.iter().map(|h| col(y, h)).collect::<Option<Vec<_>>>() { Some(v) => v, None => return false };
+    let live = |t: &Table, n: usize, cs: &Vec<usize>, r: usize| t[n].rows[r][0] == 1 && cs.iter().all(|c| t[*c].mask.as_ref().map_or(true, |m| m[r] == 1));
+    for r in 0..x[nx].rows.len() {
+        let masked_live = x[nx].rows[r][0] == 1 && cx.iter().any(|c| x[*c].mask.as_ref().map_or(false, |m| m[r] == 0));
+        if !masked_live { continue; }
+        for q in 0..y[ny].rows.len() {
+            if live(y, ny, &cy, q) && cx.iter().zip(cy.iter()).all(|(a, b)| x[*a].rows[r] == y[*b].rows[q]) { return true; }
+        }
+    }
+    false
+}
+
 // ----------------------------------------------------------------------------------- running
 fn observe_u<T, F: FnOnce() -> ciphercore_base::errors::Result<T>>(f: F) -> Outcome<T> {
     match std::panic::catch_unwind(std::panic::AssertUnwindSafe(f)) {
@@ -706,6 +730,24 @@ pub fn run(tier: &str, seed: u64, out: &mut Out) {
         let jt = [JoinType::Union, JoinType::Inner, JoinType::Left, JoinType::Union][i % 4];
         let owners = [(0u8, 1u8), (3, 2), (1, 0), (2, 3)][(i / 2) % 4];
         out.stat("stream:compiled-key-header-collision");
+        run_compiled(&inst, jt, owners, comp_seeds, &mut rng, out);
+    }
+    // compiled masked joins with one public table holding a live row whose masked key entry carries
+    // the key of a live row of the other table (it must match nothing)
+    let n_comp_masked = match tier { "thorough" => 16, "search" => 40, _ => 4 };
+    for i in 0..n_comp_masked {
+        let public_a = i % 2 == 0;
+        let mut inst = gen_instance(&mut rng, 3, true, false, false);
+        let mut found = has_masked_key_collision(&inst, public_a);
+        for _ in 0..400 {
+            if found { break; }
+            inst = gen_instance(&mut rng, 3, true, false, false);
+            found = has_masked_key_collision(&inst, public_a);
+        }
+        if !found { out.stat("stream:compiled-masked-key-collision:not-generated"); continue; }
+        let jt = JTS[(i / 2) % 4];
+        let owners = if public_a { (3u8, (i % 3) as u8) } else { ((i % 3) as u8, 3u8) };
+        out.stat("stream:compiled-masked-key-collision");
         run_compiled(&inst, jt, owners, comp_seeds, &mut rng, out);
     }
     for i in 0..n_comp {
